@@ -154,13 +154,15 @@ func (p *Program) deriveWire(st *types.Struct, in, out string) (clauses []string
 						fmt.Sprintf("(%s == nil) == (%s == nil)", fo, fi),
 						fmt.Sprintf("%s != nil ==> fresh(%s)", fo, fo),
 						fmt.Sprintf("%s != nil && textOK_%s(%s) ==> textOf_%s(%s) == textOf_%s(%s) && parsed_%s(%s)", fo, tn, fi, tn, fo, tn, fi, tn, fo))
+					okConds = append(okConds, fmt.Sprintf("(%s != nil ==> textOK_%s(%s))", fi, tn, fi))
 				} else {
+					// encoding/json calls MarshalText on the value and UnmarshalText on the text:
+					// the decoded value is textRT_T(v) := parse_T(string_T(v)), defined (opaque) in the contract file
 					clauses = append(clauses,
 						fmt.Sprintf("(%s == nil) == (%s == nil)", fo, fi),
-						fmt.Sprintf("%s != nil ==> fresh(%s)", fo, fo),
-						fmt.Sprintf("%s != nil && textOK_%s(*%s) ==> *%s == *%s", fo, tn, fi, fo, fi))
+						fmt.Sprintf("%s != nil ==> fresh(%s) && *%s == textRT_%s(*%s)", fo, fo, fo, tn, fi))
+					okConds = append(okConds, fmt.Sprintf("(%s != nil ==> textDecodes_%s(*%s))", fi, tn, fi))
 				}
-				okConds = append(okConds, fmt.Sprintf("(%s != nil ==> textOK_%s(%s))", fi, tn, deref(et, fi)))
 			case isPlainBasic(et) || plainStruct(et):
 				clauses = append(clauses,
 					fmt.Sprintf("(%s == nil) == (%s == nil)", fo, fi),
